@@ -1041,6 +1041,22 @@ def mask_contract(vk, cfg):
         vk.ensures_true(f"{tag}/candidates-identified", all(x is not None for x in spec_nodes), f"{nc} candidate faces")
         if any(x is None for x in spec_nodes):
             continue
+        # 0. (native, first: independent of the symbolic mask stand-in) the other documented forms of a mask: a list of booleans, an array / list of point indices (in any order) --
+        # the same point set selects the same faces
+        mism = []
+        for trial in range(8):
+            mk = rng.rand(npts) < (0.85 if trial % 2 else 0.6)
+            idx = np.flatnonzero(mk)
+            want = np.array([all(mk[p] for p in spec_nodes[b]) for b in range(nc)], dtype=bool)
+            forms = {"bool-list": mk.tolist(), "index-array": idx, "index-list": idx.tolist(), "index-array-shuffled": rng.permutation(idx)}
+            for fname, form in forms.items():
+                if len(idx) == 0 and fname != "bool-list":
+                    continue
+                with symnp.native():
+                    rr = bcls(mesh, only_surface=only_surface, mask=form)
+                if not np.array_equal(np.asarray(rr.mesh.cells_faces), cand_faces[want]):
+                    mism.append((trial, fname))
+        vk.ensures_true(f"{tag}/mask-forms (boolean list, index array, index list, shuffled indices) select the same faces", not mism, f"8 random point sets x 4 forms; mismatches {mism[:4]}")
         # 1. the selection conditions the constructor computes == all points of the geometric face satisfy the mask
         _, conds = masked_region(bcls, mesh, m, None, only_surface=only_surface)
         vk.ensures_true(f"{tag}/one-condition-per-candidate", conds is not None and len(conds) == nc, f"{None if conds is None else len(conds)} conditions")
